@@ -219,15 +219,25 @@ def run(ctx):
         if w: findings.append(w)
         w = decide('%s-not-read-as-exponent' % label, z3.And(z3.ULT(u_, count), z3.UGE(TL(u_), 1), z3.substitute(E, (b0, at(z3.BitVecVal(0, 6))), (b1, at(z3.BitVecVal(1, 6))))), lambda m: ('exponent', namer(L(m, u_))))
         if w: findings.append(w)
+    # (4) what the encoders write: Unit::symbol() is the last and Unit::name() the first identifier, for units with 1, 2 or 3
+    #     identifiers (symbolic text) - from the MIR of the accessors
+    acc_bad = unit_accessor_obligation(ctx, prog)
+    for w in acc_bad: findings.append(w)
+    single = [u for u in names if len(units[u]) == 1]
+    ctx.cov['single_identifier_units'] = len(single)
     ctx.cov['queries'] += len(queries); ctx.cov['solver_s'] = round(t_sol, 2)
     ctx.cov['obligation_results'] = queries
     ctx.cov['states'] += len(queries)
     # ---- native replay of every counterexample (and of one witness unit per obligation for validation)
-    cases = []
+    cases = []; acc_findings = []
     for f in findings:
+        if f[0] == 'accessor':
+            # replayed natively on every single-identifier unit below (the sample)
+            acc_findings.append(f); continue
         ident = {'shared': lambda: f[1][0], 'lookup': lambda: f[1], 'stray-key': lambda: f[1][0], 'not-unit-char': lambda: f[1], 'glued': lambda: f[1], 'exponent': lambda: f[1]}[f[0]]()
         cases.append((f, {'api': 'unit_survives', 'id': ident.encode('utf-8').hex()}))
     sample = [{'api': 'unit_survives', 'id': units[names[(ctx.seed * 37 + q * 53) % len(names)]][-1].encode('utf-8').hex()} for q in range(8)]
+    sample += [{'api': 'unit_survives', 'id': units[u][-1].encode('utf-8').hex()} for u in single]
     res = native.run_cases(native.build(), [c for _, c in cases] + sample)
     for (f, c), r in zip(cases, res):
         o = r.get('ok') or {}
@@ -237,10 +247,17 @@ def run(ctx):
             ctx.note_inconclusive('counterexample %s does not reproduce natively: %s' % (str(f), str(r)[:200])); continue
         ctx.cov['traces_validated_against_impl'] += 1
         ctx.report('units.table:%s:%s' % (f[0], f[1]), '%s: %s; native: %s' % (f[0], f[1:], str(r)[:300]), case=c)
+    sample_bad = []
     for r in res[len(cases):]:
         o = r.get('ok') or {}
         if o.get('lookup') is not None and o.get('zinc_same') and o.get('json_same') and o.get('zinc_by_id_same'): ctx.cov['traces_validated_against_impl'] += 1
-        else: ctx.note_inconclusive('all obligations hold but a sampled unit fails natively: %s' % str(r)[:300])
+        else: sample_bad.append(r)
+    if acc_findings:
+        if sample_bad:
+            ctx.report('units.accessor:%s' % acc_findings[0][1].split('(')[0], '%s; native: %s' % ('; '.join(f[1] for f in acc_findings), str(sample_bad[0])[:300]), case=None)
+        else: ctx.note_inconclusive('accessor counterexample does not reproduce natively: %s' % acc_findings[0][1])
+    elif sample_bad:
+        ctx.note_inconclusive('all obligations hold but a sampled unit fails natively: %s' % str(sample_bad[0])[:300])
     for q in queries[:12]: ctx.add_sample(q)
     ctx.cov['transitions'] += len(entries)
     ctx.assume('a string that is no identifier is absent from the table by construction of HashMap::get (stated, not proved)')
@@ -248,6 +265,40 @@ def run(ctx):
     ctx.obligation('unit-table-obligations', 'held' if not ctx.violations else 'violated', obligations=len(queries))
     if not ctx.quick():
         cross_check_cvc5(ctx, asked)
+
+
+def unit_accessor_obligation(ctx, prog):
+    from vlib import sym as vsym
+    from mirsym.values import Agg, VecV, Ptr, Cell, Unsupported
+    from mirsym.models import none, string_of, items_of
+    from props.zenc_common import Leaves
+    ut = [td.full for td in prog.src.types.get('Unit', [])]
+    ut = [t for t in ut if t.endswith('units::unit::Unit')][0]
+    bad = []
+    for method, pick in (('symbol', -1), ('name', 0)):
+        body = prog.find_method(ut, None, method)
+        if body is None: ctx.note_inconclusive('Unit::%s not found in the MIR' % method); continue
+        for k in (1, 2, 3):
+            ex = vsym.make_exec(prog)
+            def fn(e, k=k, body=body):
+                l = Leaves(e)
+                ids = [string_of([l.byte([(0x21, 0x7e)])]) for _ in range(k)]
+                u = Agg(ut, 0, [none(), VecV(ids, 'vec'), none(), 1.0, 0.0])
+                r = e.call_body(body, [Ptr(Cell(u))])
+                return list(items_of(e, r)), list(ids[pick].items)
+            def post(e, r):
+                if r.kind != 'ok': return ('unsupported', r.kind, r.detail)
+                got, want = r.value
+                if len(got) != len(want): return ('differs', k)
+                for a_, b_ in zip(got, want):
+                    if e.sat(a_ != b_) is not None: return ('differs', k)
+                return ('same', k)
+            res, left = ex.explore(fn, post=post)
+            ctx.cov['states'] += len(res); ctx.cov['queries'] += ex.stats['checks']; ctx.add_functions(ex.stats['bodies'])
+            for r in res:
+                if r[0] == 'unsupported': ctx.note_inconclusive('Unit::%s: %s %s' % (method, r[1], r[2]))
+                elif r[0] == 'differs': bad.append(('accessor', 'Unit::%s() of a unit with %d identifier(s) is not its %s identifier' % (method, k, 'last' if pick == -1 else 'first')))
+    return bad
 
 
 def cross_check_cvc5(ctx, asked):
